@@ -214,7 +214,7 @@ pub fn run(ctx: &Ctx) {
     );
 
     // (2) random rulesets
-    let n = ctx.tier.pick(60_000u64, 1_500_000u64);
+    let n = ctx.tier.pick(250_000u64, 2_500_000u64);
     ctx.random(
         "random-rulesets",
         n,
@@ -236,7 +236,7 @@ pub fn run(ctx: &Ctx) {
     );
 
     // (3) serializable inputs
-    let n3 = ctx.tier.pick(40_000u64, 600_000u64);
+    let n3 = ctx.tier.pick(150_000u64, 1_500_000u64);
     ctx.random(
         "serializable-inputs",
         n3,
